@@ -535,6 +535,19 @@ pub struct ExploreStats {
     pub outcomes: BTreeSet<String>,
 }
 
+/// The explorer lost control of an execution. Verdicts recorded before that stand (exit 1); without
+/// any, the run is a machinery failure (exit 2).
+fn machinery_exit(rep: &mut Report) -> ! {
+    if rep.violations > 0 {
+        eprintln!("note: the exploration was abandoned; {} violation instance(s) recorded before that stand", rep.violations);
+        rep.caps.push("exploration abandoned after a machinery failure; earlier verdicts stand".into());
+        rep.exhaustive = false;
+        let code = rep.finish_mut();
+        std::process::exit(code);
+    }
+    std::process::exit(2);
+}
+
 /// Iterated preemption-bounded DFS. Violations are reported through `rep` with a replayable
 /// schedule; each violating schedule is re-executed once and must reproduce its trace.
 #[allow(clippy::too_many_arguments)]
@@ -566,7 +579,7 @@ pub fn explore<Sc: Scenario>(sc: &Sc, max_bound: usize, horizon: usize, budget_s
                         attempt += 1;
                         if attempt >= 3 {
                             eprintln!("MACHINERY FAILURE: {} schedule {:?}: {e}", sc.name(), prefix);
-                            std::process::exit(2);
+                            machinery_exit(rep);
                         }
                     }
                 }
@@ -638,7 +651,7 @@ pub fn explore<Sc: Scenario>(sc: &Sc, max_bound: usize, horizon: usize, budget_s
                         }
                         if !reproduced {
                             eprintln!("MACHINERY FAILURE: schedule {:?} of {} is not reproducible:\n first: {:?}\n again: {:?}", sched, sc.name(), r.trace, last);
-                            std::process::exit(2);
+                            machinery_exit(rep);
                         }
                         reported.insert(sig.clone());
                     }
